@@ -786,7 +786,8 @@ Definition do_mark_used (sc : N) (a : akey) (s : state) : state * rc :=
   match alookup addr_eqb (sc, a) (m_addrs m) with
   | None => (s, ROk)
   | Some o =>
-    let ct := match o with OKey _ _ ct => ct | OScript _ _ ct => ct end in
+    (* only a *managedAddress can be an account's last address *)
+    let ct := match o with OKey _ _ ct => ct | OScript _ _ _ => false end in
     (with_mem s {| mk := mk m;
                    m_accts := map (unalias sc a ct) (m_accts m);
                    m_addrs := filter (fun kv => negb (addr_eqb (fst kv) (sc, a))) (m_addrs m);
